@@ -1018,7 +1018,8 @@ class Interp:
             if name == "shape":
                 return tuple(S.wrap(S.z(s)) if not isinstance(s, (int, Sym)) else s for s in obj.shape)
             if name == "size":
-                return obj.size
+                sz = obj.size
+                return S.wrap(sz) if z3.is_expr(sz) else sz
             return getattr(obj, name)
         if isinstance(obj, SymList):
             return getattr(self, "_symlist_" + name)(obj)
